@@ -12,6 +12,8 @@ from sylib import *
 NAMES = ["a", "b", "c.txt", "d.bin", "d.dat", "e f", "ü.txt", "x.sy.tmp", ".hidden", "k.log", "data", "n1", "n2", "caf\udce9.txt", "README.md"]
 # ("caf\udce9.txt" is the byte string caf\xe9.txt: a file name that is not valid UTF-8)
 
+OWN_FILES = (".sy-checksums.db", ".sy-dir-cache.json", ".sy-state.json")
+
 def lossy(rel):
     """how a path appears in sy's JSON output (to_string_lossy)"""
     return rel.encode("utf-8", "surrogateescape").decode("utf-8", "replace")
@@ -186,9 +188,16 @@ def gen_c07_case(rng):
     for i in range(dels): dst[f"x{i}"] = F(b"stale")
     if rng.chance(1, 3): src["new"] = F(b"new file")
     flags = ["--delete", "--delete-threshold", str(thr), "-j", str(rng.pick([1, 4]))]
+    # sy's own metadata must not dilute the share: left behind by earlier runs, or created by this very run
+    k = rng.below(6)
+    if k == 0: dst[".sy-dir-cache.json"] = F(b"{}")
+    elif k == 1: dst[".sy-state.json"] = F(b"not json"); dst[".sy-dir-cache.json"] = F(b"\x00garbage")
+    with_db = (k == 2)
+    if with_db: flags += ["--checksum", "--checksum-db", "true"]
     tie = 1 if (cnt > 0 and (dels / cnt) * 100.0 > float(thr)) else 0       # the f64 expression of sync/mod.rs
     exact_tie = dels * 100 == thr * cnt
     cfg = {"delete": 1, "thr": thr, "tie": tie if exact_tie else 0}
+    if with_db: cfg["cmp"] = "c"
     return src, dst, flags, cfg, {}, [], ("tie" if exact_tie else "above" if dels * 100 > thr * cnt else "below")
 
 C08_EXTRA = [["--checksum", "--checksum-db", "true"], ["--use-cache", "true"], ["--clear-cache"], ["--clean-state"], ["--resume", "true"],
@@ -613,8 +622,8 @@ def oracles(rep, focus, desc, rc, ev, bad, summ, real_events, real_errors, pre_s
     # --- C07: guard
     if cfg.get("delete") and not cfg.get("force") and not dry:
         # deletions = destination entries with no counterpart among the scanned source entries (own files ignored)
-        dels = [r for r in pre_dst if r not in pre_src]
-        cnt = len(pre_dst)
+        dels = [r for r in pre_dst if r not in pre_src and r not in OWN_FILES]
+        cnt = len([r for r in pre_dst if r not in OWN_FILES])         # "the destination's entries": sy's own metadata files are not entries
         if cnt > 0 and len(dels) * 100 > cfg.get("thr", 50) * cnt and not excl and cfg.get("min", "-") == "-" and cfg.get("max", "-") == "-" and links != "s":
             if rc == 0: rep.oracle_fail("C07/threshold-exceeded-exit-zero", f"{len(dels)}/{cnt} deletions exceed {cfg.get('thr', 50)}% but exit status 0", desc)
             if tree_fingerprint(pre_dst) != tree_fingerprint(post_dst): rep.oracle_fail("C07/threshold-exceeded-changed", "guard should refuse before changing anything, destination changed", desc)
